@@ -3,6 +3,7 @@ import json
 import os
 
 import evalfam
+import stratfam
 from vlib import InfraError
 
 CHECKS = {}
@@ -21,6 +22,8 @@ def replay(ctx, path):
     fam = obj.get("replay_family", "eval")
     if fam == "eval":
         return evalfam.replay(ctx, obj)
+    if fam == "strat":
+        return stratfam.replay(ctx, obj)
     raise InfraError("no replay handler for family %s" % fam)
 
 
@@ -47,3 +50,8 @@ def c17(ctx):
 @register("C04")
 def c04(ctx):
     return evalfam.check_c04(ctx)
+
+
+@register("C03")
+def c03(ctx):
+    return stratfam.check_c03(ctx)
